@@ -70,6 +70,18 @@ Definition api_c17 (cmd : bytes) (args : list cbor) : option cbor :=
     | [_; _; _; _; _] => Some (ctext "fail:no to-be-signed bytes offered")
     | _ => None
     end
+  else if bytes_eqb cmd (bytes_of_string "c17.spec_finalized") then
+    (* supplied signature / tag, observed [0, tbs, encoding after finalize] : the fourth member IS the supplied value *)
+    match args with
+    | [CBytes sg; CArray [CUInt 0; _; CBytes enc]] =>
+      Some (match option_map (fun v => match v with CTag _ x => x | x => x end) (decode_first enc) with
+            | Some (CArray [_; _; _; CBytes got]) =>
+              if bytes_eqb got sg then ctext "ok" else ctext "fail:finalizing did not insert the supplied signature unchanged"
+            | _ => ctext "fail:the finalized value is not a COSE_Sign1 / COSE_Mac0 array"
+            end)
+    | [_; _] => Some (ctext "ok")
+    | _ => None
+    end
   else if bytes_eqb cmd (bytes_of_string "c17.spec_verify") then
     (* expected-by-the-RFC inputs: [attached?, detached?, alg relation (0 absent, 1 equal, 2 different), authentic?, sig parses?],
        observed verification class *)
